@@ -17,7 +17,8 @@ distribution = poolcases.distribution
 
 def gen(rng, tier):
     n = {"quick": 120, "thorough": 1500, "search": 600}[tier]
-    return [poolcases.gen_case(rng, npools=1 if i % 3 else 2) for i in range(n)]
+    return [poolcases.gen_keepalive_stop(rng) if i % 5 == 4 else poolcases.gen_case(rng, npools=1 if i % 3 else 2)
+            for i in range(n)]
 
 
 def extra(tier, rng, build_cache, known):
